@@ -1023,3 +1023,42 @@ def truthiness_exact(ck, F, rule="TABLE-ops"):
               "cast_to_bool decides truth with `%s` on %s against %s: numbers that are not exactly zero (1E-17, floating-point residue) become "
               "FALSE, and IF/NOT disagree with AND/OR on the same cell" % (rv["op"], sorted(map(str, sr))[:3], [c for c in consts if c is not None]), f, l)
     ck.ob(rule, "cast_to_bool|has a number arm", n >= 1, "no floating-point comparison found in cast_to_bool (anchor lost?)", b.file, b.line)
+
+
+# ------------------------------------------------------------------------------------------------ C05 CLIP-SHEET
+def clip_sheet(ck, F, rule="CLIP-SHEET"):
+    """A whole-row / whole-column range is clipped to the used extent of *its own* sheet: in every function
+    implementation that calls Worksheet::dimension, the index handed to Workbook::worksheet comes from the evaluated range
+    (a CalcResult / Range value), never from the coordinates of the cell that holds the formula (the CellReferenceIndex
+    parameter).  With the formula's sheet, =SUM(Sheet2!A:A) stops at the last used row of the wrong sheet."""
+    CRI = "ironcalc_base::expressions::types::CellReferenceIndex"
+    n = 0
+    for path in sorted(F.body_paths()):
+        h = F.heads[path]
+        if h["crate"] != "ironcalc_base" or "/functions/" not in h["file"] or "/test" in h["file"]:
+            continue
+        cs = F.calls.get(path, [])
+        if not any(c.endswith("::dimension") for c in cs):
+            continue
+        b = F.body(path)
+        me = b.qname.split("::")[-1] if "{closure" not in b.qname else "::".join(b.qname.split("::")[-2:])
+        k = 0
+        for bi, t in b.calls():
+            q = b.callee_q(t) or ""
+            if not q.endswith("Workbook::worksheet") or len(t["args"]) < 2:
+                continue
+            pl = op_place(t["args"][1])
+            if pl is None:
+                continue
+            rp = b.resolve_place(pl, through_named=True)
+            base = rp["l"]
+            ty = b.locals[base].replace("&", "").strip()
+            is_formula_cell = 1 <= base <= b.nargs and ty == CRI
+            k += 1
+            n += 1
+            f, l = b.loc(bi)
+            ck.ob(rule, "%s|worksheet#%d" % (me, k), not is_formula_cell,
+                  "%s clips a range with the extent of the sheet of `%s` -- the cell that holds the formula -- instead of the sheet the range "
+                  "is on: a whole-column reference to another sheet is cut at the wrong row" % (me, b.local_name(base)), f, l,
+                  sample={"fn": me, "sheet_from": b.local_name(base) or b.locals[base]})
+    ck.note("clip_sites", n)
